@@ -26,7 +26,7 @@ const rtName = "verifsimrt_rt"
 const rtPath = "verifsimrt"
 
 type stats struct {
-	Files, SyncImports, GoStmts, Recvs, Selects, Sends, Renames, MapRanges, PipeSelectors, Sleeps int
+	Files, SyncImports, AtomicImports, GoStmts, Recvs, Selects, Sends, Renames, MapRanges, PipeSelectors, Sleeps int
 }
 
 var st stats
@@ -407,6 +407,15 @@ func processFile(fset *token.FileSet, path string, renames []renameRule) ([]byte
 			imp.Name = ast.NewIdent("sync")
 			r.changed = true
 			st.SyncImports++
+		}
+		// S5: sync/atomic
+		if p == "sync/atomic" {
+			if imp.Name != nil && imp.Name.Name != "atomic" {
+				fatal("%s: renamed sync/atomic import", path)
+			}
+			imp.Path.Value = strconv.Quote(rtPath + "/atomic")
+			r.changed = true
+			st.AtomicImports++
 		}
 	}
 	r.rewritePipeSelectors(f)
